@@ -722,7 +722,7 @@ def _raw_field_preconditions(I, n):
 
 def bs_pack(I, args, kwargs):
     e = I.e
-    n = _single_symbolic_raw_field(args[0])
+    n = _single_symbolic_raw_field(args[0]) if I.limits.get("symbolic_raw_fields") else None
     if n is not None and len(args) >= 2:
         _raw_field_preconditions(I, n)
         v = args[1]
@@ -805,7 +805,7 @@ def bs_unpack_from(I, args, kwargs):
     fmt = args[0]
     data = args[1]
     offset = args[2] if len(args) > 2 else kwargs.get("offset", 0)
-    n = _single_symbolic_raw_field(fmt)
+    n = _single_symbolic_raw_field(fmt) if I.limits.get("symbolic_raw_fields") else None
     if n is not None and ops.is_bytes_like(data) and (not is_sym(offset) or not e.feasible(zint(offset) != 0)) and \
             (is_sym(offset) or offset == 0):
         _raw_field_preconditions(I, n)
